@@ -556,3 +556,70 @@ MUTANTS += [
     B("c18-priority-must-be-positive", ["C18"], TK, "    priority: int = Field(\n        default=1,\n        ge=0,", "    priority: int = Field(\n        default=1,\n        gt=0,"),
     B("c17-optional-task-at-zero-reported-without-duration", ["C17", "C11"], SV, "                new_task_solution.duration = task.duration\n", "                new_task_solution.duration = 0 if (task.optional and new_task_solution.start <= 0) else task.duration\n"),
 ]
+
+IC = "indicator_constraint.py"
+MUTANTS += [
+    # ---- fifth wave: R-INIT-ONCE from the constructor, R-DUP-NAME per registry, R-CLEAN-PAIRED, R-BOUND-PROVENANCE, R-JSON-READ,
+    #      R-PRESENCE-TEST, R-MARKER own name; rules shared with C02 C05 C07 C12 C14 ----
+    B("c03-constraint-system-built-by-the-constructor-guarded", ["C03", "C01", "C02", "C04", "C13"], SV,
+      "        self._solver = None  # to be set in initialize\n",
+      "        self._solver = None  # to be set in initialize\n\n        if not self._initialized:\n            self.initialize()\n"),
+    B("c04-duplicate-constraint-test-on-the-object", ["C04", "C03", "C18"], PB,
+      "        if constraint.name in self.constraints:", "        if constraint in self.constraints:"),
+    B("c01-duplicate-task-replaced-silently", ["C01", "C18"], PB,
+      "        if task.name in self.tasks:", "        if task.name in self.tasks and self.tasks[task.name] is task:"),
+    T("c04-twin-duplicate-constraint-test-keys", ["C04", "C03", "C18"], PB,
+      "        if constraint.name in self.constraints:", "        if constraint.name in self.constraints.keys():"),
+    B("c02-assignment-reported-from-the-task-span", ["C02", "C11"], SV,
+      "                start = z3_sol[st_var].as_long()\n                end = z3_sol[end_var].as_long()\n                if (\n                    start >= 0",
+      "                busy_start = z3_sol[st_var].as_long()\n                start = solution.tasks[task_name].start\n                end = solution.tasks[task_name].end\n                if (\n                    busy_start >= 0"),
+    B("c05-not-of-a-list-negates-each-assertion", ["C05", "C10"], FOL,
+      "        asst = z3.Not(z3.And(_get_assertions(self.constraint)))",
+      "        asst = z3.And([z3.Not(a) for a in _constraints_to_list_of_assertions([self.constraint])])"),
+    T("c05-twin-not-as-or-of-negations", ["C05", "C10"], FOL,
+      "        asst = z3.Not(z3.And(_get_assertions(self.constraint)))",
+      "        asst = z3.Or([z3.Not(a) for a in _constraints_to_list_of_assertions([self.constraint])])"),
+    B("c07-greatest-start-only-bounded", ["C07", "C08"], OBJ,
+      "        assertions = get_maximum(\n            greatest_start_time, [task._start for task in list_of_tasks]\n        )",
+      "        assertions = [greatest_start_time >= task._start for task in list_of_tasks]"),
+    B("c09-levels-and-times-cleaned-separately", ["C09"], UT,
+      "    for a, b in zip(buffer_levels, buffer_change_times):\n        if new_l2.count(b) < 1:\n            new_l1.append(a)\n            new_l2.append(b)\n",
+      "    for a in buffer_levels:\n        if not new_l1 or new_l1[-1] != a:\n            new_l1.append(a)\n    for b in buffer_change_times:\n        if new_l2.count(b) < 1:\n            new_l2.append(b)\n"),
+    B("c09-level-kept-under-another-condition", ["C09"], UT,
+      "        if new_l2.count(b) < 1:\n            new_l1.append(a)\n            new_l2.append(b)\n",
+      "        if new_l2.count(b) < 1:\n            new_l2.append(b)\n            if not new_l1 or new_l1[-1] != a:\n                new_l1.append(a)\n"),
+    T("c09-twin-clean-with-not-in", ["C09"], UT,
+      "        if new_l2.count(b) < 1:\n", "        if b not in new_l2:\n"),
+    B("c11-unit-names-from-a-sanitised-base", ["C11"], RS,
+      '                name=f"{self.name}_CumulativeWorker_{i+1}",', '                name=f"{self.name.strip()}_CumulativeWorker_{i+1}",'),
+    B("c15-indicator-bounds-recorded-by-the-constraint", ["C15", "C07"], IC,
+      "        if self.upper_bound is not None:\n            self.set_z3_assertions(\n                self.indicator._indicator_variable <= self.upper_bound\n            )\n",
+      "        if self.upper_bound is not None:\n            self.set_z3_assertions(\n                self.indicator._indicator_variable <= self.upper_bound\n            )\n        self.indicator.bounds = (self.lower_bound, self.upper_bound)\n"),
+    B("c15-objective-bounds-set-by-the-solver", ["C15", "C07"], SV,
+      "        if self._objective._bounds is None:\n            bound = None",
+      "        if self._objective._bounds is None and variable is self.problem._horizon:\n            self._objective._bounds = (0, self.problem.horizon)\n        if self._objective._bounds is None:\n            bound = None"),
+    B("c16-json-import-drops-falsy-entries", ["C16"], PB,
+      "        return _object_types[s_type].model_validate_json(json_string)",
+      "        return _object_types[s_type].model_validate({k: v for k, v in s.items() if v})"),
+    T("c16-twin-json-import-validates-the-parsed-document", ["C16"], PB,
+      "        return _object_types[s_type].model_validate_json(json_string)",
+      "        return _object_types[s_type].model_validate(s)"),
+    B("c17-empty-solution-is-false", ["C17"], SOL,
+      "    def __str__(self):\n        \"\"\"by default, return a panda dataframe, if panda available\"\"\"",
+      "    def __len__(self):\n        return len(self.tasks)\n\n    def __str__(self):\n        \"\"\"by default, return a panda dataframe, if panda available\"\"\""),
+    B("c17-solution-truth-is-any-scheduled", ["C17"], SOL,
+      "    def __str__(self):\n        \"\"\"by default, return a panda dataframe, if panda available\"\"\"",
+      "    def __bool__(self):\n        return any(t.scheduled for t in self.tasks.values())\n\n    def __str__(self):\n        \"\"\"by default, return a panda dataframe, if panda available\"\"\""),
+    B("c12-max-duration-ignored-with-allowed-durations", ["C12", "C01"], TK,
+      "            assertions.append(z3.Or(all_cstr))\n\n        if self.max_duration is not None:",
+      "            assertions.append(z3.Or(all_cstr))\n\n        elif self.max_duration is not None:"),
+    B("c14-bubble-sort-skips-the-last-pass", ["C14", "C09"], UT,
+      "        for i in range(len(arr) - 1):\n            x = arr[i]", "        for i in range(1, len(arr) - 1):\n            x = arr[i]"),
+    B("c14-bubble-sort-too-few-passes", ["C14", "C09"], UT,
+      "    for _ in range(len(sorted_list)):\n        sorted_list, asst = bubble_up(sorted_list)", "    for _ in range(len(sorted_list) - 2):\n        sorted_list, asst = bubble_up(sorted_list)"),
+]
+
+MUTANTS += [
+    T("c09-twin-bubble-sort-n-minus-one-passes", ["C09", "C14"], UT,
+      "    for _ in range(len(sorted_list)):\n        sorted_list, asst = bubble_up(sorted_list)", "    for _ in range(len(sorted_list) - 1):\n        sorted_list, asst = bubble_up(sorted_list)"),
+]
